@@ -127,14 +127,6 @@ def rule_w1(chk: Check, ir, include_invalid: bool, rule_id: str, pass1_forks: fr
         f = sorted(fs, key=lambda f: (len(f["cycle"]), f["rule"]))[0]
         pre = " ".join(str(p[1]) if len(p) > 1 else p[0] for p in f["prefix"]) or "<start>"
         others = sorted({x["rule"] for x in fs})
-        if include_invalid and r.name not in pass1_forks:
-            # Pass 2 only: the diagnostic pass usually ends at the first invalid_ rule that raises, which this graph
-            # criterion cannot see, so a fork that exists only with invalid_ alternatives enabled is not proven to be
-            # reachable work.  It is counted as undecided, never as a violation (see DESIGN §4 C18).
-            chk.undecided(rule_id, f"fork:{r.name}", str(r.pos),
-                          f"potential fork in the diagnostic pass: `{f['rule']}` invokes `{r.name}` {f['times']}x at one position "
-                          f"({' -> '.join(f['cycle'])})")
-            continue
         chk.fail(rule_id, f"fork:{r.name}", str(r.pos),
                  f"one evaluation of `{f['rule']}` invokes the unmemoised rule `{r.name}` {f['times']}x at the same position "
                  f"(after `{pre}`; call sites {f['sites']}), and `{r.name}` leads back to `{f['rule']}` through unmemoised "
